@@ -62,17 +62,21 @@ def run(ctx):
             ie = [(bb, t) for bb, t in wl.calls() if t["callee"].get("method") == "is_empty" and "VecDeque" in callee_key(t["callee"])]
             queues = set()
             okq = True
+            gsw = switch_guards(wl, wbb, dom=dom)
+
+            def decides_wait(term):
+                # the call's result is one of the conditions wait() is control-dependent on (CFG dominance, or through `&&` temporaries)
+                return any(g["src"].get("kind") == "call" and g["src"].get("term") is term for g in gsw)
             for bb, t in ie:
                 sl = Slice(wl).run(t["args"][0])
                 qs = {f.split("::")[-1] for f in sl["fields"] if f.endswith("_queue")}
                 queues |= qs
-                okq = okq and lbb in dom[bb] and bb in dom[wbb]
+                okq = okq and lbb in dom[bb] and (bb in dom[wbb] or decides_wait(t))
             ld = [e for e in atomic_events(wl) if e["op"] == "load" and e["field"] and e["field"].endswith("shutdown_flag")]
-            oks = len(ld) == 1 and lbb in dom[ld[0]["bb"]] and ld[0]["bb"] in dom[wbb] and acquireish(ld[0]["ords"][0] if ld[0]["ords"] else None)
+            oks = len(ld) == 1 and lbb in dom[ld[0]["bb"]] and (ld[0]["bb"] in dom[wbb] or decides_wait(ld[0]["term"])) and acquireish(ld[0]["ords"][0] if ld[0]["ords"] else None)
             ctx.ob("R1.no-lost-wakeup", "worker.recheck-between-listen-and-wait", okq and queues == {"urgent_queue", "regular_queue"} and oks, wl.loc(),
                    f"after listen and before wait: is_empty() re-checks of {sorted(queues)} (dominance {okq}); shutdown flag re-read acquire-ish: {oks}")
             # wait is reached only when all three checks say 'nothing': queue empty (is_empty true) and flag false
-            gsw = switch_guards(wl, wbb, dom=dom)
             n_empty = sum(1 for g in gsw if g["src"].get("kind") == "call" and g["src"]["term"]["callee"].get("method") == "is_empty" and 0 not in g["allowed"])
             n_flag = sum(1 for g in gsw if g["src"].get("kind") == "call" and g["src"]["term"]["callee"].get("method") == "load" and g["allowed"] == {0})
             ctx.ob("R1.no-lost-wakeup", "worker.wait-only-when-idle", n_empty == 2 and n_flag == 1, wl.loc(wait[0][1]["span"]),
@@ -91,7 +95,7 @@ def run(ctx):
         ctx.fn(b)
         pushes = [(bb, t) for bb, t in b.calls() if t["callee"].get("method") == "push_back" and "VecDeque" in callee_key(t["callee"])]
         notes = [(bb, t) for bb, t in b.calls() if t["callee"].get("method") == "notify" and "event_listener" in callee_key(t["callee"])]
-        ok = len(pushes) == 2 and len(notes) == 1
+        ok = len(pushes) in (1, 2) and len(notes) == 1
         det = f"push_back sites {len(pushes)}, notify sites {len(notes)}"
         if ok:
             nbb = notes[0][0]
@@ -142,9 +146,10 @@ def run(ctx):
                         if fs and "shutdown" in fs[-1] and g["allowed"] == {0}:
                             lb = g["src"]["bb"]
                             guarded = bool(gl.live_at_term(lb))
-                ctx.ob("R5.enqueue-shutdown-discipline", f"spawn_internal|push:{'/'.join(q)}", guarded, b.loc(t["span"]),
-                       f"push_back on {q} is {'guarded by' if guarded else 'NOT control-dependent on'} a shutdown-flag read made under the queue lock"
-                       + ("" if guarded else ": a task spawned through a Scheduler after the pool shut down is enqueued, never run and never dropped, so its JoinHandle never resolves"))
+                for q1 in q:   # one obligation per queue, however many push sites the source spells
+                    ctx.ob("R5.enqueue-shutdown-discipline", f"spawn_internal|push:{q1}", guarded, b.loc(t["span"]),
+                           f"push_back on {q1} is {'guarded by' if guarded else 'NOT control-dependent on'} a shutdown-flag read made under the queue lock"
+                           + ("" if guarded else ": a task spawned through a Scheduler after the pool shut down is enqueued, never run and never dropped, so its JoinHandle never resolves"))
 
     # ---------------- R2
     tw = [b for b in prog.bodies if b.key.endswith("task::TaskWrapper<F> as vicinal::task::VicinalTask>::call") or
